@@ -268,7 +268,13 @@ func c17MainWorker(args []string) int {
 // HTTP endpoint is built on and the list the distributor was handed are both
 // exactly the configured logs (one witness map, one ID per origin), and that
 // it stops. tag = "shipped-config" keeps C17's signatures.
-func mainLogLists(run *ev.Run, tag, what string, cfgYAML []byte) {
+func mainLogLists(run *ev.Run, tag, what string, cfgYAML []byte, pollingOff ...bool) {
+	feedInterval := 50 * time.Millisecond
+	if len(pollingOff) > 0 && pollingOff[0] {
+		// Bastion-only operation (--poll_interval=0): nothing is polled, the
+		// distributor works all the same.
+		feedInterval = 0
+	}
 	saved := omniwitness.ConfigLogs
 	omniwitness.ConfigLogs = cfgYAML
 	defer func() { omniwitness.ConfigLogs = saved }()
@@ -297,7 +303,7 @@ func mainLogLists(run *ev.Run, tag, what string, cfgYAML []byte) {
 		// The distributor is configured (its pushes fail: no network): it asks the
 		// witness about every log IT was given, which must be the witness map's logs.
 		done <- omniwitness.Main(ctx, omniwitness.OperatorConfig{WitnessKeys: []note.Signer{u.W1.Signer, u.W1.CosigSigner}, WitnessVerifier: u.W1.CosigVerif,
-			RestDistributorBaseURL: "http://distributor.verif.test", DistributeInterval: time.Hour, FeedInterval: 50 * time.Millisecond},
+			RestDistributorBaseURL: "http://distributor.verif.test", DistributeInterval: time.Hour, FeedInterval: feedInterval},
 			lspwrap.New(inmemory.NewPersistence(), lspwrap.Hooks{Observe: func(op, id string, _ []byte, _ error) {
 				if op == "ReadOps" {
 					askedMu.Lock()
@@ -360,6 +366,9 @@ func mainLogLists(run *ev.Run, tag, what string, cfgYAML []byte) {
 					} else if !strings.HasPrefix(l.URL, "file:") {
 						withFeeder = append(withFeeder, l)
 					}
+				}
+				if feedInterval == 0 {
+					withFeeder = nil // nothing is to be polled
 				}
 				unpolled := func() []string {
 					var m []string
